@@ -533,11 +533,23 @@ TEdit ==
      ELSE UNCHANGED <<cur, files, logWal, manNo, immDone, pending>>
   \* RainCore.FlushInstall: a memtable flushed from inside the merge loop of a table compaction
   \* stays in level 0 (the compaction's outputs will cover the gaps between its inputs)
-  /\ JudgeAnd(IF Ev.ok /\ flushed /\ comp.on /\ ~FaultMode
-                 /\ \E i \in 1..Len(Ev.add) : Ev.add[i].level > 0
-              THEN ObsViol(<<"C07", "C10">>, "FlushBelowLevel0DuringCompaction",
-                           [keys |-> <<Ev.add[1].f, Ev.add[1].level>>, at |-> 0])
-              ELSE <<>>)
+  /\ LET v1 == IF Ev.ok /\ flushed /\ comp.on /\ ~FaultMode
+                    /\ \E i \in 1..Len(Ev.add) : Ev.add[i].level > 0
+               THEN ObsViol(<<"C07", "C10">>, "FlushBelowLevel0DuringCompaction",
+                            [keys |-> <<Ev.add[1].f, Ev.add[1].level>>, at |-> 0])
+               ELSE <<>>
+         \* the version that was installed is the previous one with exactly this edit applied
+         \* (the edit is what the manifest holds: a reopen replays it)
+         dels(lv) == {Ev.del[i].f : i \in {j \in 1..Len(Ev.del) : Ev.del[j].level = lv}}
+         adds(lv) == {ToFileRec(Ev.add[i]) : i \in {j \in 1..Len(Ev.add) : Ev.add[j].level = lv}}
+         expect(lv) == {r \in SeqSet(cur[lv]) : r.no \notin dels(lv)} \cup adds(lv)
+         got == ToVer(Ev.levels)
+         wrongLevels == {lv \in 0..(NL - 1) : SeqSet(got[lv]) # expect(lv)}
+         v2 == IF Ev.ok /\ wrongLevels # {}
+               THEN ObsViol(<<"C07", "C10">>, "InstalledVersionIsNotTheEditApplied",
+                            [keys |-> SetToSeq(wrongLevels), at |-> 0])
+               ELSE <<>> IN
+     JudgeAnd(v1 \o v2)
   /\ Step(Ev.ok, "Edit")
   /\ flushed' = FALSE
   /\ UNCHANGED <<nk, seq, hist, mem, imm, immOn, immWal, pins, snaps, comp, disk, nextFile,
